@@ -1,8 +1,10 @@
 #!/bin/sh
-# usage: mkmut.sh <Cxx> <name> "<expected obligation substring>"  — saves the uncommitted diff of the scratch worktree /tmp/mutwork as a mutant and resets it
+# usage: mkmut.sh <Cxx> <name> "<expected obligation substring>"
+# saves the uncommitted diff of the scratch worktree ($MUTWORK, default /tmp/mutwork) as mutations/<Cxx>/<name>.diff and resets the worktree
 set -eu
-W=/tmp/mutwork
-mkdir -p /verif/mutations/$1
-{ echo "# mutant for $1: $2"; echo "# expect: ${3:-}"; git -C $W diff; } > /verif/mutations/$1/$2.diff
-git -C $W checkout -q -- .
-echo saved /verif/mutations/$1/$2.diff
+W="${MUTWORK:-/tmp/mutwork}"
+V="$(cd "$(dirname "$0")/.." && pwd)"
+mkdir -p "$V/mutations/$1"
+{ echo "# mutant for $1: $2"; echo "# expect: ${3:-}"; git -C "$W" diff; } > "$V/mutations/$1/$2.diff"
+git -C "$W" checkout -q -- .
+echo "saved $V/mutations/$1/$2.diff"
